@@ -69,7 +69,13 @@ def ast_functions(run, keys, tier, rt_quick=8, rt_thorough=60, search_n=150, sig
             run.undecide(k, 'out of the verified subset / engine limit: %s; bounded search over %d inputs found no failing input' % (
                 rep.out_of_subset.splitlines()[0][:200], (search.get(k) or rt)['runs']))
             continue
-        refuted = [r for r in rep.failed() if r.verdict == 'sat' and run.was_discharged_at_baseline(r.oid)]
+        # A counter-model of an obligation is a model of an INTERMEDIATE state (after cut loops / havocked calls), not an input.  It is reported as a
+        # violation without failing input only when it refutes a clause of the contract itself (post / raises / frame, tag `property`) that was discharged on
+        # the unchanged tree AND every proof-internal obligation of the function (invariant init / preserve, callee preconditions, safety) still holds: then
+        # the proof skeleton still fits the code and only the specified behaviour changed.  A refuted invariant alone means the proof no longer fits the
+        # code (e.g. a behaviour-preserving restructuring): undecided.
+        aux_ok = all(r.tag == 'property' for r in rep.failed())
+        refuted = [r for r in rep.failed() if r.verdict == 'sat' and r.tag == 'property' and aux_ok and run.was_discharged_at_baseline(r.oid)]
         if refuted:
             r = refuted[0]
             run.violation(r.oid, 'obligation discharged on the unchanged tree is now refuted by %s; no failing input found by the bounded search (%d inputs)' % (
